@@ -63,7 +63,10 @@ def library_identifiers():
     return _LIB_IDS
 
 
-def gen_defset(rng, n_entities=None, fault=None, simple_types=False, want_nested=False):
+def gen_defset(rng, n_entities=None, fault=None, simple_types=False, want_nested=False, force=()):
+    """`force`: rare features that must be present whatever the dice say ('shadow', 'order', 'wide', 'huge', 'libnames')"""
+    def dice(name, prob):
+        return name in force or rng.random() < prob
     ds = {'aliases': [], 'alias_ext': None, 'interfaces': [], 'entities': [], 'entities_form': rng.choice(['flat', 'cse']),
           'fault': fault}
     # aliases: name -> ('tree', t) | ('ref', other)
@@ -77,7 +80,7 @@ def gen_defset(rng, n_entities=None, fault=None, simple_types=False, want_nested
         # duplicate tag in alias.xml: the last wins (position of the first)
         nm = rng.choice(ds['aliases'])[0]
         ds['aliases'].append((nm, ('tree', small_type(rng, allow_user=not simple_types))))
-    if rng.random() < 0.3:
+    if dice('shadow', 0.3):
         # an alias that carries the name of a built-in type (legal: the alias table is consulted first). Only names the generator
         # never writes inside a type tree, so that every mention of them is a reference to the alias
         for nm in rng.sample(['FLOAT', 'UNICODE_STRING'], rng.randint(1, 2)):
@@ -110,7 +113,7 @@ def gen_defset(rng, n_entities=None, fault=None, simple_types=False, want_nested
         k = rng.choice([0, 0, 1, 1, 2, 3])
         named = rng.random() < 0.4
         args = [(('arg%d' % j) if named else None, type_ref()) for j in range(k)]
-        if named and k and rng.random() < 0.3 and library_identifiers():
+        if named and k and dice('libnames', 0.3) and library_identifiers():
             # argument names that are also parameter names inside the library (self, entity, name, args, ...)
             picked = rng.sample(library_identifiers(), min(k, len(library_identifiers())))
             args = [(nm, t) for nm, (_, t) in zip(picked, args)]
@@ -134,7 +137,7 @@ def gen_defset(rng, n_entities=None, fault=None, simple_types=False, want_nested
             sec['base'].append(gen_method())
         if rng.random() < 0.5:
             sec['volatile'] = rng.sample(['position', 'yaw', 'pitch', 'roll', 'other'], rng.randint(0, 5))
-        if rng.random() < 0.5:
+        if dice('order', 0.5):
             # the order of the top-level sections of a .def file carries no meaning: write them in any order
             sec['order'] = rng.sample(range(7), 7)
         return sec
@@ -148,13 +151,13 @@ def gen_defset(rng, n_entities=None, fault=None, simple_types=False, want_nested
     rng.shuffle(names)
     for nm in names:
         ds['entities'].append(gen_section(nm, [s['name'] for s in ds['interfaces']]))
-    if rng.random() < 0.12:
+    if dice('wide', 0.12):
         # a wide entity: more than 128 client-visible properties (one-byte indexes of creation packets above 127, wide index fields)
         sec = rng.choice(ds['entities'])
         for j in range(rng.randint(130, 200)):
             sec['props'].append({'name': 'w%d' % j, 'type': ('tree', {'k': 'int', 'size': rng.choice([1, 1, 2]), 'signed': rng.random() < 0.3}),
                                  'flags': rng.choice(['ALL_CLIENTS', 'OWN_CLIENT', 'OTHER_CLIENTS']), 'default': None})
-    if rng.random() < 0.03:
+    if dice('huge', 0.03):
         # a wholly fixed-size property at or beyond the size the definitions treat as "infinite" (65535 bytes): it ties with the
         # variable-size ones in the stable size order
         sec = rng.choice(ds['entities'])
